@@ -21,7 +21,9 @@ def main():
     eng_opts = {'max_steps': 400000, 'max_paths': 20000, 'timeout_ms': 60000 if TIER == 'quick' else 600000}
     for L in range(lmax, -1, -1):
         for e in V2: jobs.append(dict(harness='h_dec_v2.cpp', ll=ll2, entry=e, params={'len': L}, models=['zlib_identity'], known=ck.known, eng_opts=eng_opts))
-        for e in V1: jobs.append(dict(harness='h_dec_v1.cpp', ll=ll1, entry=e, params={'len': L}, models=['zlib_identity'], known=ck.known, eng_opts=eng_opts))
+        for e in V1:
+            if e == 'h_dec1_quick_cues' and L > 75: continue      # 8 cue slots x label-length forks: beyond 75 bytes the path count passes the cap (stated in the bounds)
+            jobs.append(dict(harness='h_dec_v1.cpp', ll=ll1, entry=e, params={'len': L}, models=['zlib_identity'], known=ck.known, eng_opts=eng_opts))
     # beat data has no label forks: cover two grids of two markers each (v1 needs 17+8+48+8+48 = 129 bytes)
     for L in range(lmax + 1, 131 if TIER == 'quick' else 161):
         jobs.append(dict(harness='h_dec_v2.cpp', ll=ll2, entry='h_dec_beat_data', params={'len': L}, models=['zlib_identity'], known=ck.known, eng_opts=eng_opts))
@@ -58,7 +60,7 @@ def main():
             for b in payloads(e, 6 if TIER == 'quick' else 30):
                 common.translation_validate(ck, harness, ll_, e, {'len': len(b)}, [b])
     ck.extra['translation_validation'] = 'executor vs native ASan/UBSan build on %d concrete payloads (REACH trace and termination must agree)' % ck.tv_cases
-    ck.extra['bounds'] = {'payload_length': 'every length 0..%d (beat data: 0..%d), all bytes symbolic (embedded 64-bit counts and one-byte label lengths unconstrained)' % (lmax, 130 if TIER == 'quick' else 160),
+    ck.extra['bounds'] = {'payload_length': 'every length 0..%d (beat data: 0..%d; 1.x quick cues: 0..75), all bytes symbolic (embedded 64-bit counts and one-byte label lengths unconstrained)' % (lmax, 130 if TIER == 'quick' else 160),
                           'allocation': 'operator new(n): n > 16 MiB throws std::bad_alloc, otherwise succeeds',
                           'per_path_instruction_cap': eng_opts['max_steps'], 'zlib_wrappers': 'real zlib_uncompress/zlib_compress over a contract stub: inputs of the listed lengths, <= 8 inflate/deflate calls, <= 2 full output chunks',
                           'outside': 'payloads longer than the bound; libz itself'}
